@@ -29,6 +29,9 @@ pub enum Error<E> {
     #[error("Couldn't determine target arch: {0}")]
     CannotDetermineTargetArch(std::env::VarError),
 
+    #[error("Couldn't determine target arch variant: {0}")]
+    CannotDetermineTargetArchVariant(std::env::VarError),
+
     #[error(
         "Couldn't determine target distro name: {0}. Ensure the `io.buildpacks.base.distro.*` Docker labels are set on the base image."
     )]
